@@ -67,3 +67,20 @@ def extend(g, api):
         i_gate = body.find('if ack_eliciting && self.spaces[space_id].loss_probes == 0')
         return 'true' if (m and m.start() < i_gate) else 'false'
     g.term('closeClearsAckEliciting', 'Bool', f'{conn}::Connection::poll_transmit `if close {{ ack_eliciting = false; }}` before the congestion/pacing gate', close_gate)
+
+    timer = 'quinn-proto/src/connection/timer.rs'
+    def timer_values():
+        t = api.strip_comments(api.read(timer))
+        m = re.search(r'const VALUES: \[Self; (\d+)\] = \[(.*?)\];', t, re.S)
+        names = re.findall(r'Self::(\w+)', m.group(2))
+        enum = re.search(r'enum Timer \{(.*?)\}', t, re.S).group(1)
+        disc = dict((n, int(v)) for n, v in re.findall(r'(\w+)\s*=\s*(\d+)', enum))
+        if int(m.group(1)) != len(names) or [disc[n] for n in names] != list(range(len(names))):
+            raise Exception('Timer::VALUES is not the enum in discriminant order')
+        if not re.search(r'self\.data\.iter\(\)\.filter_map\(\|&x\| x\)\.min\(\)', t) or not re.search(r'is_some_and\(\|x\| x <= after\)', t):
+            raise Exception('TimerTable::{next_timeout,is_expired} shape changed')
+        return names
+    g.nat('timerCount', f'{timer}::Timer::VALUES length', lambda: len(timer_values()))
+    g.nat('timerIdle', f'{timer}::Timer::Idle index', lambda: timer_values().index('Idle'))
+    g.nat('timerClose', f'{timer}::Timer::Close index', lambda: timer_values().index('Close'))
+    g.nat('timerLossDetection', f'{timer}::Timer::LossDetection index', lambda: timer_values().index('LossDetection'))
